@@ -11,9 +11,10 @@ from `gc[j]`", established by the rendered constructor and preserved by every ca
 with the fuel `len(gc)+1` included — is the model's `next` on the state `.coll i j (state of p)`. -/
 set_option linter.unusedVariables false
 set_option linter.unusedSimpArgs false
+set_option linter.unusedSectionVars false
 namespace GeomV.C04
 open GeomV
-variable {α : Type}
+variable {α : Type} [LT α] [DecidableLT α]
 
 /-- a `func() Point` value made by `g.Points()` -/
 abbrev Clo (α : Type) := Geom α × ItSt
